@@ -910,6 +910,23 @@ func linesC11(lines []string, rep *Reporter) {
 }
 
 func runC11(t gen.Tier, r *gen.Rng, rep *Reporter) {
+	// what Marshal wrote is what the field holds: two writes through two writers (SetBytes, Unpack, JSON,
+	// Marshal of a field / string / bytes / zero value) with a look at the field in between
+	{
+		gw := gen.NewFieldGen(r)
+		for i := 0; i < t.N(1500, 30000); i++ {
+			spec := gw.Prim(false)
+			if hasNonePrefix(spec) {
+				continue
+			}
+			gw.OutOfDomain = false
+			v1, v2 := gw.Value(spec, false), gw.Value(spec, false)
+			if gw.OutOfDomain {
+				continue
+			}
+			checkOverwriteHistory(rep, r, spec, v1, v2)
+		}
+	}
 	// the matrix sweep (kind × Go type × value class × keepzero × tag style) and the
 	// presence cases on the fixed spec
 	seen := map[string]bool{}
